@@ -53,6 +53,11 @@ def absorb_mc(rep, pid, recs, aspects, describe, need_nontrivial=False):
         key = '%s n=%d %s%s%s%s' % (rec['logic'], rec['n'], rec['formula'], '' if rec.get('fold', True) else ' raw',
                                     (' order=%s' % rec['perm']) if rec.get('perm') else '',
                                     (' fork=%s' % ''.join('1' if v else '0' for v in rec['fixed'].values())) if rec.get('fixed') else '')
+        if rec.get('auxiliary') and (rec.get('verdict') in ('unsupported', 'unknown')):
+            # un-reduced (raw) runs audit the simplifier; they do not decide the property: one that cannot be completed is recorded,
+            # it neither passes nor fails anything (the reduced run of the same formula is the obligation)
+            rep.cov.setdefault('auxiliary_raw_runs_not_completed', []).append('%s: %s' % (key, rec.get('error') or rec.get('verdict')))
+            continue
         if rec.get('verdict') == 'unsupported':
             rep.inconclusive('%s: %s' % (key, rec['error']))
             rep.obligation(key, 'unsupported')
@@ -127,7 +132,7 @@ def run_c01(rep, tier):
     raw = ['p', 'true', 'not p', '(p or q)', '(p --> q)', 'E X p', 'A X p', 'E(p U q)', 'E F p', 'A G p', 'E G p', 'A F p', 'A(p R q)']
     if tier == 'thorough':
         raw += ['A(p U q)', 'E(p R q)']
-    tasks += [('CTL', 2, [x], dict(fold=False, audit=False, timeout_ms=900000)) for x in raw]      # raw circuits, no simplifier
+    tasks += [('CTL', 2, [x], dict(fold=False, audit=False, timeout_ms=240000, auxiliary=True, time_limit=480)) for x in raw]      # raw circuits, no simplifier
     tasks += [('CTL', 1, ch, {}) for ch in chunks(q1, 48)]
     tasks += [('CTL', 2, ch, {}) for ch in chunks(q1, 24)]
     tasks += [('CTL', 3, ch, {}) for ch in chunks(q1 + formulas.ctl_pairs() + q2, 12)]
